@@ -34,6 +34,10 @@ async def one_case(case):
                 data = b''.join(lib.content(case['seed'] * 7 + ord(ch), case['max']) for ch in case['blocks'][i])
             p.write_bytes(data)
             os.utime(p, ns=(1_600_000_000_000_000_000 + i * 1_000_003, 1_500_000_000_123_456_789 + i * 7_000_001))
+            if case.get('epoch') and i == 0:
+                os.utime(p, ns=(0, 0))                  # a file dated exactly 1970-01-01T00:00:00 (0 ns)
+            if case.get('epoch') and i == 1:
+                os.utime(p, ns=(1, 999_999_999))        # and one a nanosecond later
             files[str(p.resolve())] = data
         alias = {}
         if case.get('alias'):
@@ -149,6 +153,8 @@ def cases(tier, seed):
     for blocks in (['XYX'], ['XYXZYX'], ['XY', 'ZX', 'XY'], ['XXYXX', 'Y']):
         for enc in (False, True):
             out.append(dict(base, min=16, max=16, sizes=[16 * len(b) for b in blocks], blocks=blocks, encrypted=enc))
+    out.append(dict(base, sizes=[40, 70, 9], epoch=True))
+    out.append(dict(base, sizes=[40, 0], epoch=True, encrypted=True))
     # files around the 16 MiB read size of the snapshot stream (exactly one read, one read plus a tail, two reads)
     out.append(dict(base, min=1 << 20, max=1 << 21, sizes=[(1 << 24) + 70001, 3, 1 << 24], concurrent=3))
     # a directory reachable by two routes inside the argument (symlinked sibling)
